@@ -1,4 +1,5 @@
 import AasVerif.Model.Retree.Wire
+import AasVerif.Model.Expr.Wire
 namespace AasVerif.Drive.C00
 open AasVerif
 /-- Shared self-tests of the wire formats: `text <t>` and `regex <r>` echo through decode/encode. -/
@@ -6,5 +7,6 @@ def handle : List String → Option String
   | ["text", t] => (Text.dec t).map Text.enc
   | ["list", t] => (Text.decList t).map Text.encList
   | ["regex", r] => (Retree.Wire.dec r).map Retree.Wire.enc
+  | ["expr", e] => (Expr.Wire.dec e).map Expr.Wire.enc
   | _ => none
 end AasVerif.Drive.C00
